@@ -120,6 +120,9 @@ pub fn gen_driver(prop: &str, rng: &mut Rng, sh: &mut Shards, out: &str, thoroug
                 p.stdin = nexts(rng, 400);
                 progs.push((p, Layout::random(rng)));
             }
+            // diagnostics must cite the offending line: a sample of the C14 mutants
+            let muts = c14_programs(rng, 1);
+            progs.extend(muts.into_iter().enumerate().filter(|(i, _)| i % 3 == 0).map(|(_, x)| x));
         }
         "C17" => {
             for i in 0..(200 * scale) {
@@ -375,87 +378,7 @@ pub fn gen_driver(prop: &str, rng: &mut Rng, sh: &mut Shards, out: &str, thoroug
             }
         }
         "C14" => {
-            let nbase = 60 * scale;
-            for i in 0..nbase {
-                let mut g = Gen::new(rng);
-                let mut k = Knobs::control();
-                k.blocks = 3 + (i % 6);
-                k.macros = false;
-                k.prints = i % 2 == 0;
-                let mut base = g.program(&k);
-                // make sure there is something of every kind to mutate
-                if !base.data.iter().any(|d| matches!(d, DataItem::Def { label: Some(_), .. })) {
-                    base.data.push(DataItem::Def { label: Some("dvar_Q".into()), dir: "dw", form: DataForm::Num(5) });
-                }
-                base.items.push(Item::Ins(Ins::Jcc { mn: "jmp", label: "tail_Z".into(), target: 0 }));
-                base.items.push(Item::Ins(Ins::Mov { w: 8, dst: Opnd::Reg8("al"), src: Opnd::Imm(200) }));
-                base.items.push(Item::Ins(Ins::BinArith { op: "add", w: 16, dst: Opnd::Reg16("bx"), src: Opnd::Imm(-7) }));
-                base.items.push(Item::Label("tail_Z".into()));
-                base.items.push(Item::Ins(Ins::Ctl { op: "nop" }));
-                // the unmutated original must run (vacuity guard)
-                progs.push((base.clone(), Layout::plain()));
-                let radix_layouts: Vec<Layout> = [Radix::Dec, Radix::Hex, Radix::Bin].iter().enumerate().map(|(q, r)| {
-                    let mut l = Layout::plain();
-                    l.force = Some(Spelling { case: if q == 1 { Case::Upper } else { Case::Lower }, radix: *r, wide: q == 2, nl: false });
-                    l
-                }).collect();
-                for m in 0..crate::checks3::MUTATIONS {
-                    if let Some(mut p) = mutate(&base, m, rng) {
-                        p.note = format!("mutation-{}", m);
-                        // constants are written in a different radix from program to program
-                        progs.push((p, radix_layouts[(i + m) % 3].clone()));
-                    }
-                }
-            }
-            let boundary_start = progs.len();
-            // boundary values of every constant range: the inside must be accepted, one step outside refused
-            for (w, vals) in [(8u8, vec![-129i32, -128, -1, 0, 255, 256]), (16u8, vec![-32769, -32768, -1, 0, 65535, 65536])] {
-                for v in vals {
-                    let r = if w == 8 { Opnd::Reg8("dl") } else { Opnd::Reg16("dx") };
-                    let m = Opnd::Mem { seg: "", base: "", index: "", disp: 0x3000, has_disp: true };
-                    let cases: Vec<Ins> = vec![
-                        Ins::Mov { w, dst: r.clone(), src: Opnd::Imm(v) },
-                        Ins::Mov { w, dst: m.clone(), src: Opnd::Imm(v) },
-                        Ins::BinArith { op: "sub", w, dst: r.clone(), src: Opnd::Imm(v) },
-                        Ins::BinArith { op: "cmp", w, dst: m.clone(), src: Opnd::Imm(v) },
-                        Ins::Logic { op: "xor", w, dst: r.clone(), src: Opnd::Imm(v) },
-                        Ins::Logic { op: "test", w, dst: m.clone(), src: Opnd::Imm(v) },
-                    ];
-                    for ins in cases {
-                        progs.push((Program { data: vec![], items: vec![Item::Label("start".into()), Item::Ins(ins)], interp: false, stdin: vec![], note: format!("boundary-{}-{}", w, v) }, Layout::plain()));
-                    }
-                    let dir: &'static str = if w == 8 { "db" } else { "dw" };
-                    for form in [DataForm::Num(v), DataForm::Fill(v, 2)] {
-                        progs.push((Program { data: vec![DataItem::Def { label: Some("bv".into()), dir, form }], items: vec![Item::Label("start".into()), Item::Ins(Ins::Ctl { op: "nop" })], interp: false, stdin: vec![], note: format!("boundary-data-{}-{}", w, v) }, Layout::plain()));
-                    }
-                }
-            }
-            for v in [0i32, 1, 255, 256] {
-                progs.push((Program { data: vec![], items: vec![Item::Label("start".into()), Item::Ins(Ins::Shift { op: "rol", mn: "rol", w: 16, dst: Opnd::Reg16("ax"), cnt: Cnt::Imm(v as u32) })], interp: false, stdin: vec![], note: format!("boundary-count-{}", v) }, Layout::plain()));
-            }
-            for v in [-32769i32, -32768, 65535, 65536] {
-                let m = Opnd::Mem { seg: "", base: "bx", index: "", disp: v, has_disp: true };
-                progs.push((Program { data: vec![], items: vec![Item::Label("start".into()), Item::Ins(Ins::Mov { w: 16, dst: Opnd::Reg16("ax"), src: m })], interp: false, stdin: vec![], note: format!("boundary-disp-{}", v) }, Layout::plain()));
-            }
-            for v in [-1i32, 0, 65535, 65536] {
-                let m = Opnd::Mem { seg: "", base: "", index: "", disp: v, has_disp: true };
-                progs.push((Program { data: vec![], items: vec![Item::Label("start".into()), Item::Ins(Ins::Mov { w: 16, dst: Opnd::Reg16("ax"), src: m })], interp: false, stdin: vec![], note: format!("boundary-direct-{}", v) }, Layout::plain()));
-            }
-            for v in [0u32, 65535, 65536] {
-                progs.push((Program { data: vec![DataItem::Set(v), DataItem::Def { label: None, dir: "db", form: DataForm::Zero(v) }], items: vec![Item::Label("start".into()), Item::Ins(Ins::Ctl { op: "nop" })], interp: false, stdin: vec![], note: format!("boundary-set-{}", v) }, Layout::plain()));
-            }
-            for n in [0u32, 2, 3, 4, 0x10, 0x11, 0x20, 0x21, 0x22, 255] {
-                progs.push((Program { data: vec![], items: vec![Item::Label("start".into()), Item::Ins(Ins::Mov { w: 16, dst: Opnd::Reg16("ax"), src: Opnd::Imm(0x0200) }), Item::Ins(Ins::Int { n })], interp: false, stdin: vec![], note: format!("boundary-int-{}", n) }, Layout::plain()));
-            }
-            // the boundary programs once more with hexadecimal and binary constants
-            let extra: Vec<(Program, Layout)> = progs[boundary_start..].iter().flat_map(|(p, _)| {
-                [(Radix::Hex, Case::Upper), (Radix::Bin, Case::Lower)].iter().map(|(r, c)| {
-                    let mut l = Layout::plain();
-                    l.force = Some(Spelling { case: *c, radix: *r, wide: false, nl: false });
-                    (p.clone(), l)
-                }).collect::<Vec<_>>()
-            }).collect();
-            progs.extend(extra);
+            progs.extend(c14_programs(rng, scale));
         }
         _ => panic!("harness: no driver workload for {}", prop),
     }
@@ -520,7 +443,7 @@ pub fn mutate(base: &Program, m: usize, rng: &mut Rng) -> Option<Program> {
         2 => {
             // jump to a data label
             let l = data_label?;
-            p.items.push(Item::Ins(Ins::Jcc { mn: *rng.pick(&["jmp", "jz", "loop", "jcxz"]), label: l, target: 0 }));
+            p.items.push(Item::Bad(Ins::Jcc { mn: *rng.pick(&["jmp", "jz", "loop", "jcxz"]), label: l, target: 0 }, String::new()));
         }
         3 => {
             // mixed operand sizes
@@ -530,7 +453,7 @@ pub fn mutate(base: &Program, m: usize, rng: &mut Rng) -> Option<Program> {
                 2 => Ins::Xchg { w: 16, a: Opnd::Reg16("cx"), b: Opnd::Reg8("dl") },
                 _ => Ins::Logic { op: "and", w: 8, dst: Opnd::Reg8("dh"), src: Opnd::Reg16("si") },
             };
-            p.items.push(Item::Ins(ins));
+            p.items.push(Item::Bad(ins, String::new()));
         }
         4 => {
             // a constant one step outside its range
@@ -544,11 +467,11 @@ pub fn mutate(base: &Program, m: usize, rng: &mut Rng) -> Option<Program> {
                 6 => Ins::Logic { op: "and", w: 16, dst: Opnd::Reg16("dx"), src: Opnd::Imm(65536) },
                 _ => Ins::Mov { w: 16, dst: Opnd::Mem { seg: "", base: "", index: "", disp: 70000, has_disp: true }, src: Opnd::Reg16("ax") },
             };
-            p.items.push(Item::Ins(ins));
+            p.items.push(Item::Bad(ins, String::new()));
         }
         5 => {
             let t = *rng.pick(&unsupported);
-            p.items.push(Item::Ins(Ins::Unsupported { text: t.to_string() }));
+            p.items.push(Item::Bad(Ins::Unsupported { text: t.to_string() }, String::new()));
         }
         6 => {
             // no code label `start`
@@ -565,7 +488,7 @@ pub fn mutate(base: &Program, m: usize, rng: &mut Rng) -> Option<Program> {
         }
         8 => {
             // a data operand naming a code label
-            p.items.push(Item::Ins(Ins::Mov { w: 16, dst: Opnd::Reg16("ax"), src: Opnd::Label { name: "tail_Z".into(), off: 0 } }));
+            p.items.push(Item::Bad(Ins::Mov { w: 16, dst: Opnd::Reg16("ax"), src: Opnd::Label { name: "tail_Z".into(), off: 0 } }, String::new()));
         }
         9 => {
             // a data operand / OFFSET naming nothing
@@ -574,12 +497,12 @@ pub fn mutate(base: &Program, m: usize, rng: &mut Rng) -> Option<Program> {
         }
         10 => {
             // OFFSET of a code label
-            p.items.push(Item::Ins(Ins::Mov { w: 16, dst: Opnd::Reg16("si"), src: Opnd::Offset { name: "start".into(), off: 0 } }));
+            p.items.push(Item::Bad(Ins::Mov { w: 16, dst: Opnd::Reg16("si"), src: Opnd::Offset { name: "start".into(), off: 0 } }, String::new()));
         }
         11 => {
             // call of something that is not a procedure
             let n = *rng.pick(&["tail_Z", "start", "nosuch_P"]);
-            p.items.push(Item::Ins(Ins::Call { name: n.to_string(), target: 0 }));
+            p.items.push(Item::Bad(Ins::Call { name: n.to_string(), target: 0 }, "call".to_string()));
         }
         12 => {
             // call of a procedure that is only defined later
@@ -611,11 +534,12 @@ pub fn mutate(base: &Program, m: usize, rng: &mut Rng) -> Option<Program> {
         }
         16 => {
             // jump to a label that is defined nowhere (and nothing else wrong)
-            p.items.push(Item::Ins(Ins::Jcc { mn: *rng.pick(&["jmp", "jne", "loope"]), label: "nosuch_L".into(), target: 0 }));
+            let mn: &'static str = *rng.pick(&["jmp", "jne", "loope"]);
+            p.items.push(Item::Bad(Ins::Jcc { mn, label: "nosuch_L".into(), target: 0 }, mn.to_string()));
         }
         17 => {
             // unsupported interrupt number
-            p.items.push(Item::Ins(Ins::Int { n: *rng.pick(&[0u32, 1, 2, 4, 0x11, 0x20, 0x22, 255]) }));
+            p.items.push(Item::Bad(Ins::Int { n: *rng.pick(&[0u32, 1, 2, 4, 0x11, 0x20, 0x22, 255]) }, "int".to_string()));
         }
         18 => {
             // an operand of the wrong kind inside an existing instruction: make a register operand the wrong width
@@ -729,4 +653,92 @@ pub fn gen_repeats(rng: &mut Rng, sh: &mut Shards, out: &str, thorough: bool) {
         sh.unit(&[serde_json::json!({"ev":"repeat","runs":k,"identical":identical,"what":what,"note":p.note,"source":r.source})]);
     }
     let _ = std::fs::remove_dir_all(&dir);
+}
+
+/// valid programs x single semantic mutations + boundary values of the constant ranges (C14; C16 for the cited positions)
+pub fn c14_programs(rng: &mut Rng, scale: usize) -> Vec<(Program, Layout)> {
+    let mut progs: Vec<(Program, Layout)> = Vec::new();
+
+            let nbase = 60 * scale;
+            for i in 0..nbase {
+                let mut g = Gen::new(rng);
+                let mut k = Knobs::control();
+                k.blocks = 3 + (i % 6);
+                k.macros = false;
+                k.prints = i % 2 == 0;
+                let mut base = g.program(&k);
+                // make sure there is something of every kind to mutate
+                if !base.data.iter().any(|d| matches!(d, DataItem::Def { label: Some(_), .. })) {
+                    base.data.push(DataItem::Def { label: Some("dvar_Q".into()), dir: "dw", form: DataForm::Num(5) });
+                }
+                base.items.push(Item::Ins(Ins::Jcc { mn: "jmp", label: "tail_Z".into(), target: 0 }));
+                base.items.push(Item::Ins(Ins::Mov { w: 8, dst: Opnd::Reg8("al"), src: Opnd::Imm(200) }));
+                base.items.push(Item::Ins(Ins::BinArith { op: "add", w: 16, dst: Opnd::Reg16("bx"), src: Opnd::Imm(-7) }));
+                base.items.push(Item::Label("tail_Z".into()));
+                base.items.push(Item::Ins(Ins::Ctl { op: "nop" }));
+                // the unmutated original must run (vacuity guard)
+                progs.push((base.clone(), Layout::plain()));
+                let radix_layouts: Vec<Layout> = [Radix::Dec, Radix::Hex, Radix::Bin].iter().enumerate().map(|(q, r)| {
+                    let mut l = Layout::plain();
+                    l.force = Some(Spelling { case: if q == 1 { Case::Upper } else { Case::Lower }, radix: *r, wide: q == 2, nl: false });
+                    l
+                }).collect();
+                for m in 0..crate::checks3::MUTATIONS {
+                    if let Some(mut p) = mutate(&base, m, rng) {
+                        p.note = format!("mutation-{}", m);
+                        // constants are written in a different radix from program to program
+                        progs.push((p, radix_layouts[(i + m) % 3].clone()));
+                    }
+                }
+            }
+            let boundary_start = progs.len();
+            // boundary values of every constant range: the inside must be accepted, one step outside refused
+            for (w, vals) in [(8u8, vec![-129i32, -128, -1, 0, 255, 256]), (16u8, vec![-32769, -32768, -1, 0, 65535, 65536])] {
+                for v in vals {
+                    let r = if w == 8 { Opnd::Reg8("dl") } else { Opnd::Reg16("dx") };
+                    let m = Opnd::Mem { seg: "", base: "", index: "", disp: 0x3000, has_disp: true };
+                    let cases: Vec<Ins> = vec![
+                        Ins::Mov { w, dst: r.clone(), src: Opnd::Imm(v) },
+                        Ins::Mov { w, dst: m.clone(), src: Opnd::Imm(v) },
+                        Ins::BinArith { op: "sub", w, dst: r.clone(), src: Opnd::Imm(v) },
+                        Ins::BinArith { op: "cmp", w, dst: m.clone(), src: Opnd::Imm(v) },
+                        Ins::Logic { op: "xor", w, dst: r.clone(), src: Opnd::Imm(v) },
+                        Ins::Logic { op: "test", w, dst: m.clone(), src: Opnd::Imm(v) },
+                    ];
+                    for ins in cases {
+                        progs.push((Program { data: vec![], items: vec![Item::Label("start".into()), Item::Ins(ins)], interp: false, stdin: vec![], note: format!("boundary-{}-{}", w, v) }, Layout::plain()));
+                    }
+                    let dir: &'static str = if w == 8 { "db" } else { "dw" };
+                    for form in [DataForm::Num(v), DataForm::Fill(v, 2)] {
+                        progs.push((Program { data: vec![DataItem::Def { label: Some("bv".into()), dir, form }], items: vec![Item::Label("start".into()), Item::Ins(Ins::Ctl { op: "nop" })], interp: false, stdin: vec![], note: format!("boundary-data-{}-{}", w, v) }, Layout::plain()));
+                    }
+                }
+            }
+            for v in [0i32, 1, 255, 256] {
+                progs.push((Program { data: vec![], items: vec![Item::Label("start".into()), Item::Ins(Ins::Shift { op: "rol", mn: "rol", w: 16, dst: Opnd::Reg16("ax"), cnt: Cnt::Imm(v as u32) })], interp: false, stdin: vec![], note: format!("boundary-count-{}", v) }, Layout::plain()));
+            }
+            for v in [-32769i32, -32768, 65535, 65536] {
+                let m = Opnd::Mem { seg: "", base: "bx", index: "", disp: v, has_disp: true };
+                progs.push((Program { data: vec![], items: vec![Item::Label("start".into()), Item::Ins(Ins::Mov { w: 16, dst: Opnd::Reg16("ax"), src: m })], interp: false, stdin: vec![], note: format!("boundary-disp-{}", v) }, Layout::plain()));
+            }
+            for v in [-1i32, 0, 65535, 65536] {
+                let m = Opnd::Mem { seg: "", base: "", index: "", disp: v, has_disp: true };
+                progs.push((Program { data: vec![], items: vec![Item::Label("start".into()), Item::Ins(Ins::Mov { w: 16, dst: Opnd::Reg16("ax"), src: m })], interp: false, stdin: vec![], note: format!("boundary-direct-{}", v) }, Layout::plain()));
+            }
+            for v in [0u32, 65535, 65536] {
+                progs.push((Program { data: vec![DataItem::Set(v), DataItem::Def { label: None, dir: "db", form: DataForm::Zero(v) }], items: vec![Item::Label("start".into()), Item::Ins(Ins::Ctl { op: "nop" })], interp: false, stdin: vec![], note: format!("boundary-set-{}", v) }, Layout::plain()));
+            }
+            for n in [0u32, 2, 3, 4, 0x10, 0x11, 0x20, 0x21, 0x22, 255] {
+                progs.push((Program { data: vec![], items: vec![Item::Label("start".into()), Item::Ins(Ins::Mov { w: 16, dst: Opnd::Reg16("ax"), src: Opnd::Imm(0x0200) }), Item::Ins(Ins::Int { n })], interp: false, stdin: vec![], note: format!("boundary-int-{}", n) }, Layout::plain()));
+            }
+            // the boundary programs once more with hexadecimal and binary constants
+            let extra: Vec<(Program, Layout)> = progs[boundary_start..].iter().flat_map(|(p, _)| {
+                [(Radix::Hex, Case::Upper), (Radix::Bin, Case::Lower)].iter().map(|(r, c)| {
+                    let mut l = Layout::plain();
+                    l.force = Some(Spelling { case: *c, radix: *r, wide: false, nl: false });
+                    (p.clone(), l)
+                }).collect::<Vec<_>>()
+            }).collect();
+            progs.extend(extra);
+            progs
 }
